@@ -17,6 +17,7 @@ def check(ctx, env):
     K.r13_2_replace(ctx, prog)
     M.r7_2_st_send(ctx, prog, rule="R13.3")
     M.r8_1_decoration(ctx, prog, rule="R13.3")
+    M.r8_5_derivation(ctx, prog, rule="R13.3")      # the values of the credential attributes (USERHASH operands, key inputs)
     K.r10_3_last_on_send(ctx, prog, rule="R13.4")
     K.r13_45_build(ctx, prog)
     K.r13_6_packet_immutable(ctx, prog)
